@@ -30,7 +30,9 @@ DEPTH = z3.Function("tok_depth", I, I)
 NTOK = z3.Int("tok_n")
 
 A_STREAM = ("C15 abstraction: Parser.lexer is an abstract one-shot token stream tok[0..N) (symbolic N, symbolic type/value per token); "
-            "next(lexer, None) yields the tokens in order, then None for ever, or raises ValueError (lexer error) at any read")
+            "next(lexer, None) yields the tokens in order, then None for ever, or raises ValueError (lexer error) at any read "
+            "[for the real Lexer this is the verified simulation step of the linked contracts Parser._read_token / Parser.__init__ (contracts/C15.py Part 3b) "
+            "over the ghost definitions of the token stream of a text]")
 A_DEPTH = "ghost definition: DEPTH(i+1) = DEPTH(i) + (1 if tok[i] is '(' else -1 if tok[i] is ')' else 0), DEPTH(0) = 0"
 A_HEAP = ("C15 abstraction: AST nodes built by the parser are references into a ghost heap (allocation order); ASTNode.add_child is used through its "
           "contract (parent set, appended last, nothing else changed); the `tokens` lists are a write-only sink")
@@ -116,6 +118,40 @@ class TokVal:
         return TVAL(self.idx)
 
 
+class TokenValue:
+    """`.value` of a token seen through Lexer.__next__'s contract: a number part (FLOAT tokens) and a text part (all others)"""
+
+    def __init__(self, real, text):
+        self.real_z, self.text = real, text
+
+    def __pyvc_snapshot__(self, memo):
+        return self
+
+
+def token_type_z(tok):
+    """z3 Int: the TokenType value of a Token object (concrete member or symbolic)"""
+    t = tok.fields["type"]
+    return t.z if isinstance(t, SymEnum) else z3.IntVal(t.value)
+
+
+def token_text(tok):
+    """the text part of a token's value (str / symbolic string) or None"""
+    from .ext_C15_text import SStr
+
+    v = tok.fields["value"]
+    if isinstance(v, TokenValue):
+        return v.text
+    return v if isinstance(v, (str, SStr)) else None
+
+
+def token_real(tok):
+    """the number part of a token's value (z3 Real) or None"""
+    v = tok.fields["value"]
+    if isinstance(v, TokenValue):
+        return v.real_z
+    return to_z3(v, "real") if kind_of(v) in ("real", "int") else None
+
+
 class UpperLit:
     """str.upper(token.value) for a string-valued token: compared with literals through TUP."""
 
@@ -175,8 +211,52 @@ def _state(eng):
 _prev_next = models.BUILTIN_MODELS.get(next)
 
 
+TPOS = z3.Function("tok_start", I, I)  # ghost: TPOS(k) = look-ahead index of the Lexer before it lexes token k
+A_LINK = ("ghost definitions (token stream of a text): TPOS(0) = 0, TPOS(k+1) = the Lexer's look-ahead after the token lexed at TPOS(k); "
+          "TTYPE(k) / TVAL(k) = type / float value of that token (well defined: Lexer.__next__'s postcondition gives token and new look-ahead as "
+          "functions of the text and the old look-ahead); NTOK = least k such that only blanks follow TPOS(k) (exists: every token consumes at least "
+          "one character); the instance for k is added when token k is handed out")
+
+
+def _m_next_linked(eng, it, args):
+    """next(lexer[, None]) on a REAL Lexer (fields r / next_char / lineno / column) that carries the ghost counter g_cur: the real
+    Lexer.__next__ is used through its contract; ghost code advances the counter, stamps the token with its index and adds the
+    definitional instances of the token-stream vocabulary for it"""
+    from . import ext_C15_text as T
+
+    if len(args) == 2 and args[1] is not None or len(args) > 2:
+        raise Unsupported("next(lexer, default) with a default other than None")
+    eng.assumptions.add(A_LINK)
+    eng.assumptions.add(A_DEPTH)
+    c = to_z3(it.fields["g_cur"], "int")
+    try:
+        tok = eng.call(eng.getattr_(it, "__next__"), [], {})
+    except ProgExc as e:
+        if isinstance(e.cls, type) and issubclass(e.cls, StopIteration) and len(args) == 2:
+            tok = None
+        else:
+            raise
+    eng.assume(depth_step(c))  # definitional instance for the token being consumed (as in the abstract model)
+    it.fields["g_cur"] = Sym(z3.simplify(c + 1), "int")
+    if tok is not None:
+        if not (isinstance(tok, Obj) and "type" in tok.fields):
+            raise Unsupported("Lexer.__next__ returned something that is not a Token")
+        k = z3.simplify(c + 1)
+        tok.fields["g_idx"] = Sym(k, "int")
+        p, sl = it.fields["r"].pos, T.as_slice(it.fields["next_char"])
+        if sl is None:
+            raise Unsupported("Lexer.next_char is not one piece of the text")
+        facts = [TTYPE(k) == token_type_z(tok), TPOS(k + 1) == p - (sl[1] - sl[0])]
+        if token_real(tok) is not None:
+            facts.append(TVAL(k) == token_real(tok))
+        eng.assume(z3.And(*facts))
+    return tok
+
+
 def _m_next(eng, args, kwargs):
     it = args[0]
+    if isinstance(it, Obj) and "g_cur" in it.fields and "r" in it.fields:
+        return _m_next_linked(eng, it, args)
     if isinstance(it, Obj) and "g_cur" in it.fields:
         if len(args) == 2 and args[1] is not None or len(args) > 2:
             raise Unsupported("next(lexer, default) with a default other than None on the abstract token stream")
